@@ -240,6 +240,7 @@ impl Prop for C03 {
                 },
                 opts,
                 k1_nudged: 0,
+                delay: None,
             },
             history: vec![QOp::SweepItems, QOp::SweepItems, QOp::Reopen, QOp::SweepItems],
         }]
